@@ -417,6 +417,10 @@ type clampOut struct {
 	Max     float64 `json:"max_us"`
 	Twice   bool    `json:"idempotent"`
 	ViaOpt  bool    `json:"via_option_equal"`
+	// what the other entry points install: WithRetry on the legacy client, WithSimpleRetry(n) on both (-1: no configuration found)
+	ViaOptLegacy  bool   `json:"via_option_equal_legacy"`
+	SimpleRetries [2]int `json:"simple_retries"`
+	SimpleValid   bool   `json:"simple_valid"` // the configuration WithSimpleRetry installs is a fixed point of Validate
 }
 
 func runClamp(c clampIn) clampOut {
@@ -447,6 +451,32 @@ func runClamp(c clampIn) clampOut {
 	if err == nil {
 		if got := mcp.VerifClientRetryConfig(cl); got != nil {
 			out.ViaOpt = same(*got, v)
+		}
+	}
+	if lcl, err := mcp.NewSSEClient("http://127.0.0.1:1/sse", mcp.Implementation{Name: "v", Version: "0"},
+		mcp.WithRetry(mcp.RetryConfig{MaxRetries: c.Retries, InitialBackoff: in.InitialBackoff, BackoffFactor: f, MaxBackoff: in.MaxBackoff})); err == nil {
+		if got := mcp.VerifClientRetryConfig(lcl); got != nil {
+			out.ViaOptLegacy = same(*got, v)
+		}
+	}
+	out.SimpleRetries = [2]int{-1, -1}
+	out.SimpleValid = true
+	for i := 0; i < 2; i++ {
+		var scl *mcp.Client
+		var err error
+		if i == 0 {
+			scl, err = mcp.NewClient("http://127.0.0.1:1/mcp", mcp.Implementation{Name: "v", Version: "0"}, mcp.WithSimpleRetry(c.Retries))
+		} else {
+			scl, err = mcp.NewSSEClient("http://127.0.0.1:1/sse", mcp.Implementation{Name: "v", Version: "0"}, mcp.WithSimpleRetry(c.Retries))
+		}
+		if err != nil {
+			continue
+		}
+		if got := mcp.VerifClientRetryConfig(scl); got != nil {
+			out.SimpleRetries[i] = got.MaxRetries
+			if !same(*got, mcp.VerifRetryValidate(*got)) {
+				out.SimpleValid = false
+			}
 		}
 	}
 	return out
